@@ -2,13 +2,14 @@
 
 Everything here runs the implementation selected by VERIF_REPO (PYTHONPATH); no verdict is taken here.
 """
-import copy, hashlib, itertools, json
+import copy, hashlib, itertools, json, re
 from fractions import Fraction
 import torch
 import torch.nn as nn
 
 SMP = {'sample_alpha_sm': 0, 'sample_alpha_gs': 1, 'sample_alpha_none': 2}
 SMP_NAME = {0: 'Sm', 1: 'Gs', 2: 'NoSamp'}
+SW_ID = {'train_net_only': 0, 'train_nas_only': 1, 'train_net_and_nas': 2, 'train_features': 3, 'train_rf': 4, 'train_dilation': 5, 'train_selection': 6}
 
 
 # ----------------------------------------------------------------------------- seed networks
@@ -258,7 +259,8 @@ class Runner:
             except RuntimeError as ex:
                 # MPS with disable_sampling keeps the coefficient tensor (and its autograd graph) of an earlier forward
                 # pass: a second backward through it is impossible; the step degenerates to a forward pass
-                if 'backward through the graph a second time' not in str(ex):
+                # ... and nothing is left to differentiate when every parameter that reaches the loss is frozen
+                if 'backward through the graph a second time' not in str(ex) and 'does not require grad' not in str(ex):
                     raise
             self.snap(('fwd', self.noise))
             self.snap(('vals',) + values(self.st))
@@ -275,6 +277,22 @@ class Runner:
             W.eval(); self.snap(('eval',))
         elif k == 'disc':
             W.discrete_cost = op[1]; self.snap(('disc', op[1]))
+        elif k == 'sw':      # trainability switches: they write requires_grad only; never replayed on the restored wrapper
+            name, b = op[1], op[2]
+            if name in ('train_net_only', 'train_nas_only', 'train_net_and_nas'):
+                getattr(W, name)()
+            else:
+                setattr(W, name, b)
+            self.snap(('sw', SW_ID[name], b))
+        elif k == 'perturb':  # arbitrary new values of the architectural parameters (what a long search reaches): masks get pruned
+            g = torch.Generator().manual_seed(9000 + op[1])
+            with torch.no_grad():
+                for q in W.nas_parameters():
+                    if self.m == 'PIT':
+                        q.copy_(torch.rand(q.shape, generator=g) * 1.3)
+                    else:
+                        q.copy_(torch.randn(q.shape, generator=g))
+            self.snap(('vals',) + values(self.st))
         elif k == 'upd':     # ('upd', temperature|None, hard|None, gumbel|None, disable|None)
             if self.m == 'MPS':
                 W.update_softmax_options(temperature=op[1], hard=op[2], gumbel=op[3], disable_sampling=op[4])
@@ -314,6 +332,8 @@ def leaf_struct(mod):
                 r = repr(m)
             except Exception as ex:     # a repr that needs state that was never computed is itself an observation
                 r = 'EXC:' + type(ex).__name__
+            # requires_grad of the exported parameters is neither structure nor weights (printed by some quantizer reprs)
+            r = re.sub(r',?\s*requires_grad=(True|False)', '', r)
             out.append((n, type(m).__name__, r))
     return out
 
